@@ -183,6 +183,16 @@ def generate(rng, tier):
                 dict(ref=0x5600 + lo, pieces=mk_pieces(4, False, rng, 'plain'), transport='udh16', ucs2=False, payload=False)]
         order = [(0, 0), (1, 3), (0, 2), (1, 0), (1, 1), (0, 1), (1, 2)]
         yield from history('lowbyte', msgs, order, ('udh16', True, False, 4, 2, 'other', False))
+    # 3c. boundary reference numbers: 0 and the largest of each width, with every transport
+    for tr, ref in (('sar', 0), ('udh8', 0), ('udh16', 0), ('sar', 255), ('udh8', 255), ('sar', 65535), ('udh16', 65535),
+                    ('udh16', 256), ('sar', 1)):
+        n = rng.randrange(3, 6)
+        ucs2 = rng.random() < 0.5
+        msgs = [dict(ref=ref, pieces=mk_pieces(n, ucs2, rng, 'plain'), transport=tr, ucs2=ucs2, payload=False)]
+        idx = list(range(n))
+        rng.shuffle(idx)
+        order = [(0, s2) for s2 in idx]
+        yield from history('boundary-ref', msgs, order, (tr, ucs2, False, n, 1, 'ref%d' % ref, False))
     # 4. duplicates (outside the statement; correspondence only)
     for _ in range(40 if thorough else 15):
         n = rng.randrange(2, 6)
